@@ -1553,6 +1553,10 @@ class Evaluator:
                         return Scalar(A.sym(f'len({x.path})'))
                     if isinstance(x, DictVal):
                         return Scalar(len(x.items))
+                    if isinstance(x, Inst):
+                        m_ = self.prog.find_method(x.cls, '__len__')
+                        if m_ is not None:
+                            return self.call_func(m_, [], {}, st, ctx, self_val=x)
                     raise Undecided('len')
                 return self.lift(_len, args[0])
             if name == 'bool':
